@@ -318,16 +318,20 @@ class Sim:
                 self.old[u].append(before[u])
 
 
-PW_POOL = ['', 'a', 'secret', 'pass word', 'päss', 'admin', 'x' * 32, '0', 'Tr0ub4dor&3', 'qToggle', ' ', 'e3b0c442']
+PW_POOL = ['', 'set', 'a', 'secret', 'pass word', 'päss', 'admin', 'x' * 32, '0', 'Tr0ub4dor&3', 'qToggle', ' ', 'e3b0c442']
 
 
 SET_CMD = """case "$QS_PASSWORD" in 'R!'*) exit 1;; esac"""   # the system password policy: refuses passwords starting with R!
 
 
+REFUSED = ['R!refused-pw-1', 'R!another-bad']
+
+
 def gen_actions(rng, n, set_cmd=False):
-    pool = rng.sample(PW_POOL[1:], 5) + ['']
+    # "set" and "" are what the password attributes read back as: always among the values
+    pool = rng.sample(PW_POOL[2:], 4) + ['set', '']
     if set_cmd:
-        pool += ['R!bad', 'R!']
+        pool += list(REFUSED)
     acts = []
     sim = Sim()
 
@@ -342,7 +346,7 @@ def gen_actions(rng, n, set_cmd=False):
         r = rng.random()
         if set_cmd and r < 0.2:
             # a change the system refuses (must change nothing), now and then followed by a restart
-            push({'a': 'patch', 'pws': [[rng.choice(USERS), rng.choice(['R!bad', 'R!'])]], 'refused': True,
+            push({'a': 'patch', 'pws': [[rng.choice(USERS), rng.choice(REFUSED)]], 'refused': True,
                   'via': rng.choice(['http', 'direct'])})
             continue
         if r < 0.12 and any(v for v in sim.cur.values()):
@@ -364,7 +368,12 @@ def gen_actions(rng, n, set_cmd=False):
         if r < 0.45:
             us = rng.sample(USERS, rng.choice([1, 1, 1, 2, 3]))
             ok_pool = [x for x in pool if not x.startswith('R!')]
-            push({'a': 'patch', 'pws': [[u, rng.choice(ok_pool)] for u in us], 'via': rng.choice(['http', 'http', 'direct'])})
+            pws = [[u, rng.choice(ok_pool)] for u in us]
+            if rng.random() < 0.25:
+                # the texts the getters report: "set" over a non-empty password, "" over anything
+                for x in pws:
+                    x[1] = 'set' if sim.cur[x[0]] else rng.choice(['set', ''])
+            push({'a': 'patch', 'pws': pws, 'via': rng.choice(['http', 'http', 'direct'])})
         elif r < 0.60:
             push({'a': 'restart'})
         elif r < 0.68:
@@ -974,6 +983,43 @@ HASH_NAMES = ['admin_password_hash', 'normal_password_hash', 'viewonly_password_
 LEVELS = {'admin': 30, 'normal': 20, 'viewonly': 10, 'none': 0}
 
 
+SECRETS = set()
+RESPONSE_LEAKS = []
+N_RESPONSES = [0]
+DOCUMENTED_HASH_FIELDS = ('admin_password_hash', 'password_hash')
+
+
+def _strings_except_documented(x, out):
+    if isinstance(x, str):
+        out.append(x)
+    elif isinstance(x, dict):
+        for k, v in x.items():
+            out.append(str(k))
+            if k in DOCUMENTED_HASH_FIELDS:
+                continue
+            _strings_except_documented(v, out)
+    elif isinstance(x, (list, tuple)):
+        for v in x:
+            _strings_except_documented(v, out)
+
+
+def note_response(method, path, code, data):
+    """every answer body of every request is searched for every password text / hash submitted in this history"""
+    if not data or not SECRETS:
+        return
+    N_RESPONSES[0] += 1
+    try:
+        texts = []
+        _strings_except_documented(json.loads(data), texts)
+    except Exception:
+        texts = [data.decode('latin-1')]
+    for t in texts:
+        for sec in SECRETS:
+            if sec in t:
+                RESPONSE_LEAKS.append({'method': method, 'path': path, 'status': code, 'secret': sec, 'body': t[:300]})
+                return
+
+
 class Conn:
     def __init__(self, port):
         self.port = port
@@ -981,10 +1027,13 @@ class Conn:
 
     async def request(self, method, path, headers, body=None):
         try:
-            return await asyncio.wait_for(self._request(method, path, headers, body), 30)
+            code, data = await asyncio.wait_for(self._request(method, path, headers, body), 30)
         except asyncio.TimeoutError:
             self.close()
             return -2, b'timeout'
+        note_response(method, path, code, data)
+        return code, data
+
 
     async def _request(self, method, path, headers, body=None):
         for attempt in (0, 1):
@@ -1222,6 +1271,10 @@ async def main(script_path, out_path):
             if pw:
                 secrets.add(pw)
             secrets.add(hashlib.sha256(pw.encode()).hexdigest())
+        SECRETS.clear()
+        SECRETS.update(x for x in secrets if len(x) >= 6)
+        del RESPONSE_LEAKS[:]
+        N_RESPONSES[0] = 0
         for item in hist['items']:
             if 'action' in item:
                 try:
@@ -1265,6 +1318,7 @@ async def main(script_path, out_path):
                     except Exception as e:
                         pr.append({'error': '%s: %s' % (type(e).__name__, e)})
                 hres.append({'batch': pr})
+        hres.append({'responses': {'n': N_RESPONSES[0], 'leaks': list(RESPONSE_LEAKS[:5])}})
         results.append(hres)
     conn.close()
     srv.stop()
@@ -1497,6 +1551,14 @@ def build_shard(hist, hres, info, res, stats):
                          'multi': [[d, v[0]] for d, v in o.get('multi', [])], 'stream_spec': p.get('stream_spec'),
                          'set_cmd': hist.get('set_cmd'), 'slave_spec': p.get('slave_spec'), 'bits7': o.get('bits7'), 'status': o.get('status'),
                          'sops': p.get('sops'), 'slave_pw': p.get('ckey')})
+    if len(hres) > len(hist['items']) and 'responses' in hres[-1]:
+        rr = hres[-1]['responses']
+        leak = bool(rr['leaks'])
+        cases.append('(HC 8 %d 0 "" "" "" Malformed Malformed [] "" None (OBits "" "" "" %s) None false [])' % (len(ops), coq.boolean(leak)))
+        meta.append({'kind': 8, 'mut': 'responses', 'hdr': '', 'now8': 0, 'k': len(ops), 'actions': actions_so_far, 'user': None,
+                     'key': None, 'make': None, 'direct': None, 'http': None, 'bits': None, 'leak': rr['leaks'], 'wellformed': False,
+                     'make_key': None, 'multi': [], 'stream_spec': None, 'set_cmd': hist.get('set_cmd'), 'slave_spec': None,
+                     'bits7': None, 'status': None, 'sops': None, 'slave_pw': None, 'n_responses': rr['n']})
     body = (
         'Definition skew := %s.\n' % coq.z(skew)
         + 'Definition sha : list (string * string) := %s.\n'
@@ -1511,6 +1573,8 @@ def build_shard(hist, hres, info, res, stats):
 
 
 def outcome_of(m):
+    if m['kind'] == 8:
+        return 'responses:%s' % ('LEAK' if m['leak'] else 'clean')
     if m['kind'] == 7:
         b = m['bits7']
         return 'slave-doc:%s%s' % ('bit' if b[0] in ('', 'set') and b[1] in ('', 'set') else 'VALUE', ':LEAK' if b[3] else '')
@@ -1566,6 +1630,8 @@ def run_histories(ctx, res, histories, tag):
                                    + len(m.get('multi') or []))
             oc = outcome_of(m)
             stats['outcome:' + oc] = stats.get('outcome:' + oc, 0) + 1
+            if m['kind'] == 8:
+                stats['answer-bodies-searched'] = stats.get('answer-bodies-searched', 0) + (m.get('n_responses') or 0)
             stats['mutation:' + mut_class(m['mut'])] = stats.get('mutation:' + mut_class(m['mut']), 0) + 1
             stats['clock:' + ('real' if m['now8'] > 8 * 1546304400 else 'none')] = \
                 stats.get('clock:' + ('real' if m['now8'] > 8 * 1546304400 else 'none'), 0) + 1
@@ -1613,6 +1679,11 @@ def violation(m):
         what = 'a request without Authorization header got %s after %d operations, which contradicts the specification' % (
             oc, len(m['actions']))
         key = {'observe': 'no-header', 'outcome': oc, 'granted': oc != 'http:none'}
+    elif m['kind'] == 8:
+        lk = m['leak'][0]
+        what = ('the answer to %s %s (status %s) contains the password / hash %r submitted earlier in the history: %r' % (
+            lk['method'], lk['path'], lk['status'], lk['secret'], lk['body'][:200]))
+        key = {'observe': 'answer-body', 'path': lk['path'], 'status': lk['status'], 'leak': True}
     elif m['kind'] == 7 and m['mut'] == 'slave:lost-after-rename':
         what = ('after the slave operations %r the hub no longer knows the slave: %s' % (m['sops'], m['bits7'][0]))
         key = {'observe': 'slave-lost-after-rename', 'granted': False}
